@@ -73,13 +73,12 @@ func (sw *slidingWindow) cleaner() {
 				} else {
 					break
 				}
-				if len(sw.samples) > newstartidx {
-					newsamples := make([]sample, len(sw.samples)-newstartidx)
-					copy(sw.samples[newstartidx:], newsamples)
-					sw.samples = newsamples
-				} else {
-					sw.samples = make([]sample, 0)
-				}
+			}
+			if newstartidx > 0 {
+				// drop the expired prefix, keep the live samples
+				newsamples := make([]sample, len(sw.samples)-newstartidx)
+				copy(newsamples, sw.samples[newstartidx:])
+				sw.samples = newsamples
 			}
 			sw.mutex.Unlock()
 
